@@ -83,7 +83,9 @@ def _hist_job(cases):
 
 
 def _sphinx_job(job):
-    from gen.c15_hist import run_sphinx_build
+    from gen.c15_hist import run_sphinx_build, run_sphinx_incremental
+    if job.get("edit"):
+        return run_sphinx_incremental(job)
     return run_sphinx_build(job)
 
 
@@ -389,7 +391,50 @@ def search_sphinx(ctx):
                             ("serial-again", {"parallel": 0})):
             jobs.append(dict(proj, **kw))
             meta.append((p, variant, proj))
+    # incremental axis: build, edit one source (or only touch it), rebuild with the pickled environment; the HTML must equal
+    # a fresh full build of the edited sources
+    n_inc = ctx.budget(1, 8, 4)
+    for p in range(n_inc):
+        proj = c15_items.gen_project(rng, amsmath=(p % 2 == 0))
+        docs = sorted(n for n in proj["files"] if n.startswith("doc"))
+        victim = docs[rng.randrange(len(docs))]
+        for kind, edit in (("append", {"name": victim, "content": proj["files"][victim] + "\nAppended *paragraph* with [a link](doc0.md) and $y$.\n\n(newtgt)=\nText after a new target.\n"}),
+                           ("touch", {"name": victim}),
+                           ("included", {"name": "inc_part.md", "content": "changed *included* part [to](doc0.md)\n\n## Inc heading\n\nmore\n"})):
+            edited = dict(proj["files"])
+            if "content" in edit:
+                edited[edit["name"]] = edit["content"]
+            jobs.append(dict(proj, edit=edit))
+            meta.append((f"inc{p}", "incremental:" + kind, dict(proj, edit=edit)))
+            jobs.append(dict(proj, files=edited, parallel=0))
+            meta.append((f"inc{p}", "incremental-ref:" + kind, proj))
     res = pool_map(_sphinx_job, jobs, procs=8)
+    inc = {}
+    for (p, variant, proj), r in zip(meta, res):
+        if variant.startswith("incremental"):
+            inc[(p, variant)] = (r, proj)
+    for (p, variant), (r, proj) in inc.items():
+        if not variant.startswith("incremental:"):
+            continue
+        kind = variant.split(":", 1)[1]
+        ref = inc[(p, "incremental-ref:" + kind)][0]
+        ctx.search_cases += 1
+        ctx.count("sphinx:incremental:" + kind)
+        ctx.nontriv(("sphinx-inc", p, kind))
+        if r.get("error") or ref.get("error"):
+            ctx.fail("sphinx:incremental:build-error", {"kind": "sphinx-incremental", "project": proj, "edit_kind": kind},
+                     "incremental or reference build failed: " + str(r.get("error") or ref.get("error")))
+            continue
+        for fn in sorted(set(ref["html"]) | set(r["html"])):
+            if ref["html"].get(fn) != r["html"].get(fn):
+                a_l, b_l = (ref["html"].get(fn) or "").splitlines(), (r["html"].get(fn) or "").splitlines()
+                dl = next(((x, y) for x, y in zip(a_l, b_l) if x != y), ("", ""))
+                ctx.fail("sphinx:incremental:html:" + kind, {"kind": "sphinx-incremental", "project": proj, "edit_kind": kind, "file": fn},
+                         f"HTML of {fn} after an incremental rebuild ({kind}) differs from a fresh full build of the same sources",
+                         expected=dl[0][:400], observed=dl[1][:400])
+                break
+    meta_res = [(m, r) for m, r in zip(meta, res) if not m[1].startswith("incremental")]
+    meta, res = [m for m, _ in meta_res], [r for _, r in meta_res]
     ctx.notes.append("Sphinx comparison masks: absolute source dir -> <SRC>; 'Last updated on'/'Created using' footer text; ?v=/?digest= asset "
                      "hashes; search.html and genindex.html are not compared; nothing else")
     base = {}
@@ -462,6 +507,18 @@ def replay(ctx, data):
             print("replay: serial, parallel and repeated builds agree (property holds on this input)")
             return 0
         print("replay: builds differ (variants %s) or failed: %s" % (bad, [r.get("error") for r in res]))
+        return 1
+    if w.get("kind") == "sphinx-incremental":
+        proj = w["project"]
+        edit = proj["edit"]
+        edited = dict(proj["files"])
+        if "content" in edit:
+            edited[edit["name"]] = edit["content"]
+        res = pool_map(_sphinx_job, [dict(proj), {"files": edited, "conf": proj.get("conf", ""), "parallel": 0}], procs=2)
+        if res[0].get("html") == res[1].get("html") and not res[0].get("error") and not res[1].get("error"):
+            print("replay: the incremental rebuild equals the fresh full build (property holds on this input)")
+            return 0
+        print("replay: incremental rebuild differs from the fresh build, or a build failed:", res[0].get("error"), res[1].get("error"))
         return 1
     if w.get("kind") == "merge":
         res = pool_map(_hist_job, [[w["case"]]], procs=1)[0][0]
